@@ -18,7 +18,7 @@ theorem stripGo_idem (l : List Char) :
       by_cases h1 : c = '"' ∨ c = '\''
       · simp only [h1, if_true, stripGo, ihs]
       · by_cases h2 : c = '#'
-        · simp only [h1, h2, if_false, if_true]
+        · simp only [h2, if_true]
           simpa [h2] using ihc
         · simp only [h1, h2, if_false, stripGo, ihn]
     · intro q
@@ -602,9 +602,9 @@ theorem takeWhile_append_stop (p : Char → Bool) (a b : List Char) (ha : ∀ x 
   | nil =>
     cases b with
     | nil => rfl
-    | cons c cs => simp [List.takeWhile, hb c rfl]
+    | cons c cs => simp [hb c rfl]
   | cons c cs ih =>
-    simp [List.takeWhile, ha c (by simp), ih (fun x hx => ha x (by simp [hx]))]
+    simp [ha c (by simp), ih (fun x hx => ha x (by simp [hx]))]
 
 theorem dropWhile_append_stop (p : Char → Bool) (a b : List Char) (ha : ∀ x ∈ a, p x = true)
     (hb : ∀ x, b.head? = some x → p x = false) : (a ++ b).dropWhile p = b := by
@@ -612,9 +612,9 @@ theorem dropWhile_append_stop (p : Char → Bool) (a b : List Char) (ha : ∀ x 
   | nil =>
     cases b with
     | nil => rfl
-    | cons c cs => simp [List.dropWhile, hb c rfl]
+    | cons c cs => simp [hb c rfl]
   | cons c cs ih =>
-    simp [List.dropWhile, ha c (by simp), ih (fun x hx => ha x (by simp [hx]))]
+    simp [ha c (by simp), ih (fun x hx => ha x (by simp [hx]))]
 
 theorem extractGo_skip (k : Nat) (s : List Char) : extractGo k s = extractGo 0 (s.drop k) := by
   induction k generalizing s with
@@ -634,7 +634,7 @@ theorem matchMacroHead_defText (name raw rest : List Char) (hne : name ≠ [])
   have hn0 : isSpace n0 = false := isWord_not_space n0 (hn n0 (by simp))
   have hm : isSpace 'm' = false := by decide
   have h1 : (defText (n0 :: ns) raw ++ rest).dropWhile isSpace = defText (n0 :: ns) raw ++ rest := by
-    simp [defText, List.dropWhile, hm]
+    simp [defText, hm]
   have hsp : isSpace ' ' = true := by decide
   have hwsp : isWord ' ' = false := by decide
   have hbr : isSpace '[' = false := by decide
